@@ -475,6 +475,8 @@ def gen(rng, tier):
         S(searches=[dict(workers=2, calls=[4], multi=True)]),
         S(searches=[dict(workers=2, calls=[2, 2], multi=True)]),
         S(searches=[dict(workers=1, calls=[3, 1], fails=[True, True, False, False])]),
+        # a complete search() call in which EVERY evaluation fails (the header is forced by the flush), then further calls
+        S(searches=[dict(workers=1, calls=[1, 2], fails=[True, True, False])]),
         S(searches=[dict(workers=1, calls=[2]), dict(workers=1, calls=[2]), dict(workers=1, calls=[2])], same_second=True),
         # the later search is driven ONLY through the public ask / tell / dump_jobs_done_to_csv loop (no search() call)
         S(searches=[dict(workers=1, calls=[2]), dict(workers=2, calls=[2, 1], drive="manual")], same_second=True),
@@ -497,6 +499,8 @@ def gen(rng, tier):
             more.append(S(searches=[dict(workers=w, calls=[rng.randint(1, 4) for _ in range(rng.randint(1, 3))], multi=(w % 2 == 0))]))
         more.append(S(searches=[dict(workers=2, calls=[3, 2, 2], multi=True)]))
         more.append(S(searches=[dict(workers=2, calls=[2, 2], fails=[True, True, True, False, True, False])]))
+        more.append(S(searches=[dict(workers=2, calls=[2, 2, 2], fails=[True] * 6 + [False, True])]))
+        more.append(S(searches=[dict(workers=1, calls=[2, 1], fails=[True, True, True]), dict(workers=1, calls=[1, 1], fails=[True, False])], same_second=True))
         more.append(S(searches=[dict(workers=1, calls=[2]) for _ in range(5)], same_second=True))
         more.append(S(searches=[dict(workers=2, calls=[2], multi=True), dict(workers=1, calls=[1, 1])], same_second=True))
         more.append(S(searches=[dict(workers=1, calls=[2]), dict(workers=1, calls=[2])]))   # two searches, real clock
